@@ -608,6 +608,152 @@ impl Group for C12Fee {
     }
 }
 
+
+// ---------------------------------------------------------------------------------------------
+
+/// The approver-level velocity control: `VelocityApprover<NegativeApprover>` of vls-protocol-signer
+/// (automatic approval while its own `VelocityControl` accepts, otherwise ask the delegate, which always
+/// declines here) in front of a node whose own policy velocity is unlimited.
+pub struct C12Approver;
+
+impl Group for C12Approver {
+    fn property(&self) -> &'static str { "C12" }
+    fn model(&self) -> Option<&'static str> { Some("velocity") }
+    fn rule(&self) -> &'static str {
+        "approver: VelocityApprover<NegativeApprover> (its own VelocityControl from an Hourly/Daily spec) in front of a real \
+         Node with an unlimited policy velocity; proposals through handle_proposed_invoice (real signed BOLT-11 invoices) \
+         and handle_proposed_keysend with fresh payment hashes at non-decreasing times; the control is compared with the \
+         model after every proposal and the approved amounts with the sliding-window oracle; non-trivial = at least one \
+         approval and one refusal"
+    }
+    fn budget(&self, tier: Tier) -> usize { if tier == Tier::Quick { 200 } else { 4000 } }
+    fn corpus(&self) -> Vec<Vec<String>> {
+        vec!["va_new 1000 h|va_keysend 1600000000 900|va_invoice 1600000000 101|va_invoice 1600000000 100|va_keysend 1600003300 900|va_keysend 1600003600 900|va_invoice 1600003601 1"
+            .split('|').map(|s| s.to_string()).collect()]
+    }
+    fn model_line(&self, op: &str) -> Option<String> {
+        let t: Vec<&str> = op.split_whitespace().collect();
+        Some(match t.as_slice() {
+            ["va_new", l, ty] => format!("spec {} {}", l, ty),
+            ["va_keysend", now, amt] | ["va_invoice", now, amt] => format!("insert {} {}", now, amt),
+            _ => op.to_string(),
+        })
+    }
+    fn gen_case(&self, rng: &mut Rng, tier: Tier) -> Vec<String> {
+        let limit = *rng.pick(&[1000u64, 5000, 1_000_000, 1]);
+        let ty = *rng.pick(&["h", "d"]);
+        let (bi, n) = if ty == "d" { (3600u64, 24u64) } else { (300, 12) };
+        let mut ops = vec![format!("va_new {} {}", limit, ty)];
+        let len = rng.range(3, if tier == Tier::Quick { 10 } else { 25 }) as usize;
+        let mut ta = gen_times_amounts(rng, bi, n, limit, len, tier);
+        for x in ta.iter_mut() { x.0 = x.0.saturating_add(1_600_000_000).min(4_000_000_000); }
+        ta.sort();
+        for (t, a) in ta {
+            if a > 0 && a < (1u64 << 60) && rng.chance(1, 2) {
+                ops.push(format!("va_invoice {} {}", t, a));
+            } else {
+                ops.push(format!("va_keysend {} {}", t, a));
+            }
+        }
+        ops
+    }
+    fn exec_case(&self, ops: &[String]) -> CaseOut {
+        use vls_protocol_signer::approver::{Approve, NegativeApprover, VelocityApprover};
+        let mut co = CaseOut::default();
+        let persister: Arc<dyn Persist> = Arc::new(KVVPersister(MemoryKVVStore::new([7u8; 16]), JsonFormat));
+        let clock = Arc::new(ManualClock::new(Duration::from_secs(1_600_000_000)));
+        let config = NodeConfig {
+            network: Network::Testnet,
+            key_derivation_style: KeyDerivationStyle::Native,
+            use_checkpoints: true,
+            allow_deep_reorgs: true,
+        };
+        let mut st: Option<(Arc<Node>, VelocityApprover<NegativeApprover>, u64, u64)> = None;
+        let mut log: Vec<(u64, u64)> = Vec::new();
+        let mut hash_ctr: u32 = 0;
+        let (mut seen_t, mut seen_f) = (false, false);
+        for (i, op) in ops.iter().enumerate() {
+            let t: Vec<&str> = op.split_whitespace().collect();
+            let line = match t.as_slice() {
+                ["va_new", l, ty] => {
+                    let limit: u64 = l.parse().unwrap();
+                    let n = Arc::new(Node::new(config, &[9u8; 32], vec![], services(persister.clone(), clock.clone(), 0, VelocityControlIntervalType::Unlimited)));
+                    let control = VelocityControl::new(VelocityControlSpec { limit_msat: limit, interval_type: itype(ty).unwrap() });
+                    let d = digest(&control);
+                    let a = VelocityApprover::new(clock.clone(), control, NegativeApprover());
+                    st = Some((n, a, limit, if *ty == "d" { 23 * 3600 } else { 11 * 300 }));
+                    log.clear();
+                    format!("ok {}", d)
+                }
+                [kind @ ("va_keysend" | "va_invoice"), now, amt] => {
+                    let (n, a, limit, wlen) = st.as_ref().expect("va_new first");
+                    let now: u64 = now.parse().unwrap();
+                    let amt: u64 = amt.parse().unwrap();
+                    clock.set(Duration::from_secs(now));
+                    hash_ctr += 1;
+                    let mut h = [0u8; 32];
+                    h[..4].copy_from_slice(&hash_ctr.to_be_bytes());
+                    let r = std::panic::catch_unwind(std::panic::AssertUnwindSafe(|| {
+                        if *kind == "va_invoice" {
+                            use lightning_signer::bitcoin::hashes::{sha256::Hash as Sha256Hash, Hash};
+                            use lightning_signer::bitcoin::secp256k1::{Secp256k1, SecretKey};
+                            use lightning_signer::invoice::Invoice;
+                            use lightning_signer::lightning::types::payment::PaymentSecret;
+                            use lightning_signer::lightning_invoice::{Currency, InvoiceBuilder};
+                            let key = SecretKey::from_slice(&[43; 32]).unwrap();
+                            let inv = InvoiceBuilder::new(Currency::BitcoinTestnet)
+                                .description("verif".into())
+                                .payment_hash(Sha256Hash::hash(&h))
+                                .payment_secret(PaymentSecret(h))
+                                .duration_since_epoch(Duration::from_secs(now))
+                                .min_final_cltv_expiry_delta(144)
+                                .amount_milli_satoshis(amt)
+                                .build_signed(|hash| Secp256k1::new().sign_ecdsa_recoverable(hash, &key))
+                                .unwrap();
+                            a.handle_proposed_invoice(n, Invoice::Bolt11(inv))
+                        } else {
+                            a.handle_proposed_keysend(n, make_test_pubkey(1), PaymentHash(h), amt)
+                        }
+                    }));
+                    match r {
+                        Err(_) => { co.tags.insert("va:panic".into()); "panic".to_string() }
+                        Ok(Err(e)) => { co.tags.insert("va:err".into()); format!("err {:?}", e.code()) }
+                        Ok(Ok(ok)) => {
+                            if ok {
+                                seen_t = true;
+                                co.tags.insert("va:true".into());
+                                log.push((now, amt));
+                                if let Some((t0, sum)) = window_violation(&log, *wlen, *limit) {
+                                    co.violations.push(Violation {
+                                        kind: "approver-window-exceeds-limit".into(),
+                                        desc: format!("the velocity approver approved {} msat within window [{}, {}] with limit {}", sum, t0, t0 + wlen, limit),
+                                        at: i,
+                                    });
+                                }
+                                // what the approver approved the node must have recorded
+                                if !n.get_state().invoices.contains_key(&PaymentHash(if *kind == "va_invoice" {
+                                    use lightning_signer::bitcoin::hashes::{sha256::Hash as Sha256Hash, Hash};
+                                    Sha256Hash::hash(&h).to_byte_array()
+                                } else { h })) {
+                                    co.violations.push(Violation { kind: "approved-but-not-recorded".into(), desc: format!("proposal {} answered true but the node has no record of it", op), at: i });
+                                }
+                            } else {
+                                seen_f = true;
+                                co.tags.insert("va:false".into());
+                            }
+                            format!("{} {}", ok, digest(&a.control()))
+                        }
+                    }
+                }
+                _ => "bad-op".to_string(),
+            };
+            co.out.push(line);
+        }
+        co.nontrivial = seen_t && seen_f;
+        co
+    }
+}
+
 pub fn groups() -> Vec<Box<dyn Group>> {
-    vec![Box::new(C12Unit), Box::new(C12Node), Box::new(C12Fee)]
+    vec![Box::new(C12Unit), Box::new(C12Node), Box::new(C12Fee), Box::new(C12Approver)]
 }
